@@ -91,6 +91,13 @@ func c17(r *Report) propMeta {
 	r.Rule("C17.R6", "store-key agreement: every point read/delete addresses a written key family")
 	r.StoreKeyAgreement("store-keys", "tunnel", 7, nil)
 
+	r.Rule("C17.R7", "genesis import keeps ledger and index agreements")
+	vg := "x/tunnel/types.ValidateGenesis"
+	r.Gate("genesis-total-equals-records-for-every-tunnel", vg, CallEff("TotalFees.Validate"), []Cond{{Op: "BOOL", A: []string{"^call:Coins.Equal", "field:Tunnel.TotalDeposit", "field:GenesisState.Tunnels", "lookup", "field:Tunnel.ID"}, Want: true, Desc: "tunnel.TotalDeposit == sum of its deposit records"}}, GateOpts{LoopAll: true})
+	r.LoopVisitsAll("genesis-every-tunnel-compared", vg, "Coins.Equal", LoopOpts{AllowErrReturn: true})
+	ig := "x/tunnel/keeper.InitGenesis"
+	r.LoopAlwaysCalls("genesis-active-flag-always-indexed", ig, "Keeper.SetActiveTunnelID", Cond{Op: "BOOL", A: []string{"field:Tunnel.IsActive"}, Want: true, Desc: "the tunnel is not flagged active"})
+
 	return propMeta{
 		Decided: []string{
 			"R1 every tunnel msgServer method whose request carries Creator+TunnelID (5 today, new ones checked automatically) gates every keeper write by msg.Creator == GetTunnel(msg.TunnelID).Creator",
@@ -99,6 +106,7 @@ func c17(r *Report) propMeta {
 			"R4 IsActive=true and SetActiveTunnelID occur once each on every success path of ActivateTunnel and nowhere else; IsActive=false and DeleteActiveTunnelID likewise in DeactivateTunnel; end-block iterates the index",
 			"R5 WithdrawFromTunnel deactivates exactly under IsActive && !postWithdrawTotal.IsAllGTE(MinDeposit), after the new total was saved",
 			"R6 every KV-store Get/Has/Delete of x/tunnel uses a key builder of x/tunnel/types that some Set of the module also uses (a probe of an iteration prefix or of a sibling family is always-empty state)",
+			"R7 genesis: ValidateGenesis compares the total deposit of EVERY tunnel (loop over GenesisState.Tunnels, no early way out) with the sum of its deposit records before it accepts the state; InitGenesis puts every imported tunnel flagged active into the active-id set on every path of the loop body (seeds C17-5, C17-6)",
 		},
 		Undecided: []string{"equality of the three ledgers (records, total, module balance) over histories"},
 		Assume:    []string{"msg handlers atomic", "bank Send* all-or-nothing"},
